@@ -3,7 +3,7 @@
 reads), runs the macro-time model (`expand`) and the schema models, and prints for every
 operation the schema-model outcome `M=` and the specification's answer `S=`.
 -/
-import EnumToolsModel
+import EnumToolsModel.Spec
 open ET
 
 def hexVal (c : Char) : Nat :=
